@@ -239,3 +239,163 @@ def run(prog, tier, repo):
     res.floor('hand-overs to bare printers inspected', n_sites, 3)
     res.analysed['bare_printers'] = sorted(f'{tops[g].name}:{adt_name[T].split("::")[-1]}' for g, ts in bare.items() for T in ts)
     return [res]
+
+
+# ---------------------------------------------------------------------------------------------------------------------
+# CHILD-EXPR-COMMENTS (C09): every expression has a leading-comment slot behind `E::common()`. A printer function *covers*
+# an expression parameter when, on every path to its return, it either reads `E::common(p).associated_comments` or hands p
+# itself to a printer function that covers it (the generic `create_doc` wrapper is the base case). A function that
+# destructures the expression on some path without covering it (the dotted-chain flattener, the `_without_preceding_comment`
+# printer) leaves the slot to whoever passed the expression in. That is fine while the argument is the caller's own
+# parameter (the obligation moves up, and ends at the wrapper); it is a dropped comment when the argument is a *child*
+# taken out of another node - nobody above knows about that child - unless the caller reads the child's slot itself or
+# gives the child to some other function that reads it.
+
+E_NAME = 'samlang_ast::source::expr::E'
+
+
+def _is_expr_ref(t):
+    t = _unbox(t)
+    return t.k == 'adt' and t.name == E_NAME
+
+
+def run_child_expr(prog, tier, repo):
+    from ..cfg import cfg_of
+    res = RuleResult('CHILD-EXPR-COMMENTS', 'C09: a sub-expression taken out of a node and handed to a printer function that does not '
+                     'print the leading comments of its argument on every path has those comments printed by the function handing it over')
+    slots, common_id = _slot_types(prog)
+    bodies = {i: b for i, b in prog.bodies.items() if b.crate == CRATE and '::tests' not in b.name}
+    if common_id is None or not bodies:
+        res.cannot_decide('ExpressionCommon / printer bodies not found')
+        return [res]
+    eparams = {}       # body id -> [param locals of type &E]
+    for i, b in bodies.items():
+        ps = [k for k in range(1, b.nargs + 1) if _is_expr_ref(b.locals[k])]
+        if ps and 'Document' in b.locals[0].s:
+            eparams[i] = ps
+
+    def same_node(b, op, p):
+        if op[0] not in ('c', 'm'):
+            return False
+        r, path = operand_root(b, op)
+        return r == p and not any(e[0] in ('f', 't', 'v') for e in path)
+
+    def common_reads(b):
+        """[(bb, receiver operand)] for calls of E::common whose result's associated_comments is read."""
+        out = []
+        for bi, bl in enumerate(b.blocks):
+            t = bl.term
+            if bl.cleanup or t[0] != 'call' or t[4] is None:
+                continue
+            nm = callee(t)[1] or ''
+            if not (nm.endswith('::common') and 'expr::E' in nm) or not t[3]:
+                continue
+            dl = t[4].local
+            used = False
+            for b2 in [b]:
+                from ..core import places_read
+                for pl, _bi, _ln in places_read(b2):
+                    root, path = root_local(b2, pl.local)
+                    full = tuple(path) + tuple(e for e in pl.proj if e[0] == 'f')
+                    if (root == dl or pl.local == dl) and any(e[0] == 'f' and e[4] == SLOT for e in full):
+                        used = True
+            if used:
+                out.append((bi, t[3][0]))
+        return out
+    creads = {i: common_reads(b) for i, b in bodies.items()}
+    covers = {}        # (body id, param) -> bool ; least fixpoint from False
+
+    def compute(i, p):
+        b = bodies[i]
+        blocks = [bi for bi, o in creads[i] if same_node(b, o, p)]
+        for bi, bl in enumerate(b.blocks):
+            t = bl.term
+            if bl.cleanup or t[0] != 'call':
+                continue
+            cid = callee(t)[0]
+            if cid in eparams:
+                for j, o in enumerate(t[3]):
+                    if (j + 1) in eparams[cid] and same_node(b, o, p) and covers.get((cid, j + 1), False):
+                        blocks.append(bi)
+        if not blocks:
+            return False
+        cfg = cfg_of(b)
+        rets = [bi for bi, bl in enumerate(b.blocks) if bl.term[0] == 'ret' and not bl.cleanup]
+        return bool(rets) and all(cfg.nodes_dominate(blocks, r) for r in rets)
+    for _ in range(8):
+        changed = False
+        for i, ps in eparams.items():
+            for p in ps:
+                v = compute(i, p)
+                if v != covers.get((i, p), False):
+                    covers[(i, p)] = v
+                    changed = True
+        if not changed:
+            break
+    # reads "somewhere" (any path): used for the caller-side credit
+    reads_some = {(i, p) for i, ps in eparams.items() for p in ps
+                  if any(same_node(bodies[i], o, p) for _bi, o in creads[i])}
+    n = 0
+    for i in sorted(bodies, key=lambda x: bodies[x].name):
+        b = bodies[i]
+        for bi, bl in enumerate(b.blocks):
+            t = bl.term
+            if bl.cleanup or t[0] != 'call':
+                continue
+            cid = callee(t)[0]
+            if cid not in eparams:
+                continue
+            for j, o in enumerate(t[3]):
+                if (j + 1) not in eparams[cid] or o[0] not in ('c', 'm'):
+                    continue
+                if covers.get((cid, j + 1), False):
+                    continue
+                r, path = operand_root(b, o)
+                own = r is not None and 1 <= r <= b.nargs and not any(e[0] in ('f', 't', 'v') for e in path) and b.kind != 'closure'
+                # a parent expression passed only for its precedence is not printed by the callee at all
+                g = bodies[cid]
+                if not _destructures(g, j + 1):
+                    continue
+                n += 1
+                nth = sum(1 for x in res.instances if x.key.startswith(f'child:{b.name}->{g.name}#')) + 1
+                key = f'child:{b.name}->{g.name}#{nth}'
+                if own:
+                    res.ok(key, b.loc(t[7]), 'passes its own parameter on: the obligation is on its callers')
+                    continue
+                # caller-side credit: the same child goes to E::common here, or to a function reading its slot
+                credited = False
+                for _bi2, o2 in creads[i]:
+                    if operand_root(b, o2) == (r, path):
+                        credited = True
+                for bl2 in b.blocks:
+                    t2 = bl2.term
+                    if bl2.cleanup or t2[0] != 'call' or t2 is t:
+                        continue
+                    c2 = callee(t2)[0]
+                    if c2 in eparams and c2 != cid:
+                        for j2, o3 in enumerate(t2[3]):
+                            if (j2 + 1) in eparams[c2] and o3[0] in ('c', 'm') and operand_root(b, o3) == (r, path) \
+                                    and ((c2, j2 + 1) in reads_some or covers.get((c2, j2 + 1), False)):
+                                credited = True
+                if credited:
+                    res.ok(key, b.loc(t[7]), 'the child\'s leading comments are read by the function handing it over')
+                else:
+                    res.violation(key, b.loc(t[7]), f'{b.name} takes a sub-expression out of a node and hands it to {g.name}, which '
+                                  f'destructures its argument without printing `common().associated_comments` on every path, and '
+                                  f'{b.name} does not read that slot of the child either: comments attached to that sub-expression '
+                                  f'(`/* c */ (a.b).c` attaches `c` to the inner `a.b`) are dropped by the formatter')
+    res.floor('expression hand-overs to non-covering printers inspected', n, 3)
+    res.analysed['covering_printers'] = sorted(f'{bodies[i].name}#{p}' for (i, p), v in covers.items() if v)
+    res.analysed['non_covering_printers'] = sorted(f'{bodies[i].name}#{p}' for i, ps in eparams.items() for p in ps
+                                                   if not covers.get((i, p), False) and _destructures(bodies[i], p))
+    return [res]
+
+
+def _destructures(b, p):
+    """The body projects into the expression parameter (reads a variant payload), i.e. prints parts of it inline."""
+    from ..core import places_read
+    for pl, _bi, _ln in places_read(b):
+        root, path = root_local(b, pl.local)
+        if root == p and (any(e[0] in ('f', 'v') for e in path) or any(e[0] in ('f', 'v') for e in pl.proj)):
+            return True
+    return False
